@@ -319,7 +319,7 @@ func c20GeneratedSite(r *Rng, n int, a, b, cc string, ctxs []func(e string, n in
 }
 
 func runC20(c *Ctx) {
-	nFiles := c.N(6000, 60000)
+	nFiles := c.N(6000, 300000)
 	root := NewRng(c.Seed).Fork(20)
 	pats := c20ExprPatterns()
 	ctxs := c20Contexts()
